@@ -747,7 +747,7 @@ func init() {
 	core.Register(&core.Monitor{
 		ID: "C12", Level: "fault_enumeration", Plan: plan, Run: run, Race: true, Terminates: true, MaxParallel: 8,
 		Rule: "framing: message sizes {12,17,29,30,255..257,511..513,16383..16385,65534,65535,random}; every single split point and 1-octet reads for frames <= 400 octets (sampled above), seeded multi-splits; EOF and error injected at every offset (<=400) ; " +
-			"65536+ octet writes; stream/datagram ID handling with 0..5 stale/duplicate/foreign replies in seeded orders; cross-talk: 4..32 concurrent clients x 12 unique requests against real loopback UDP/TCP servers with scribbled recycled buffers and hook delays, offline exactly-once/no-mixing check; race detector on; " +
+			"65536+ octet writes; stream/datagram ID handling with 0..5 stale/duplicate/foreign replies in seeded orders; cross-talk: 4..32 concurrent clients x 12 unique requests against real loopback UDP/TCP servers with scribbled recycled buffers and hook delays, offline exactly-once/no-mixing check; a third of the clients sign with TSIG (handler must see TsigStatus nil, signed replies must verify); after every split plan the following message on the stream is read too, incl. segments that carry the end of one frame and the start of the next; race detector on; " +
 			"non-trivial = distinct (size, split plan) / scripted reply order / cross-talk round",
 		Assumptions: []string{"loss of UDP datagrams is legal: an unanswered request stays open, never 'failed'", "a watchdog of 20 s decides 'hang' for in-memory transports"},
 		MinObserved: []string{"split_plans", "fault_offsets", "server_split_plans", "datagram_scripts", "exchanges_udp", "exchanges_tcp", "hook_poolPut", "oversize_response_writes", "following_messages_read", "signed_requests_handled_udp", "signed_requests_handled_tcp"},
